@@ -56,18 +56,22 @@ CHECKS = {
         technique="Lean 4 proof (scoping look-up lemma for all frame stacks) + differential correspondence evaluator / reference / compiled binary",
         design="6/C03"),
     "C04": dict(
-        text=("Lean 4 theorem tc_sound_expr over the specification checker Tc and the reference semantics Sem: an expression built from literals, variables and the unary "
-              "and binary operators that the checker accepts at type t, evaluated in ANY environment that agrees with the checker's scope and with ANY fuel, never ends in a "
-              "type error or an undefined-variable error: it yields a value of type t, runs out of fuel, or (native configuration) stops at a division by zero - the "
-              "documented fault (progress + preservation by induction on fuel, operator typing via binArith_safe). With C02's arith_agree this carries to the VM handlers; "
-              "with C05's nonvoid_returns_all every accepted non-void function returns on every path. Not proved: soundness for calls, loops, arrays and structs, the two "
-              "code generators, the C compiler's acceptance of the generated C - for those the check is a search with the property's outcome classes as oracle: accepted "
-              "programs (random typed programs, C05 base programs, nested functions with scoped locals, tuple types, scoping and short-circuit families, functions whose "
-              "bytecode size sweeps across the 4096/8192 byte marks) through both pipelines: bytecode generation succeeds, the verifier accepts, VM execution ends "
-              "normally or in a documented fault, nanoc produces a binary that runs."),
-        note=TB + " Partial as designed (staged): the proved fragment is the operator language. Known finding F-C04-7 (nested functions do not compile natively) is reported on every run.",
-        technique="Lean 4 proof (type soundness of the operator fragment by induction on evaluation fuel) + pipeline-outcome search on both back ends",
+        text=("Lean 4 theorems over the specification checker Tc and the reference semantics Sem, for ANY environment that mirrors the checker's scope and ANY fuel: "
+              "tc_sound_expr - an expression of the operator fragment (literals, variables, unary and binary operators) accepted at type t never ends in a type error or an "
+              "undefined-variable error: it yields a value of type t, runs out of fuel, or (native configuration) stops at a division by zero; tc_sound_all / tc_sound_body / "
+              "never_stuck - the while-language over that fragment (declarations with block scoping, assignment to locals and globals, if/else, while, break, continue, return, "
+              "print, assert, expression statements, nested blocks): a body the checker accepts ends by falling through or by return with a value of the declared type, in a state "
+              "that mirrors the checker's resulting scope, or in a permitted fault (budget, division by zero natively, failed assertion) - never in a type error, an undefined "
+              "variable or function, an out-of-bounds or unsupported operation, and break/continue never escape a function (progress + preservation by simultaneous induction on "
+              "fuel over statements, blocks, sequences and loops). With C02's arith_agree this carries to the VM handlers; with C05's nonvoid_returns_all every accepted non-void "
+              "function returns on every path. Not proved: soundness for calls, for-loops, arrays and structs, the two code generators, the C compiler's acceptance of the "
+              "generated C - for those the check is a search with the property's outcome classes as oracle: accepted programs (random typed programs, C05 base programs, nested "
+              "functions with scoped locals, tuple types, scoping and short-circuit families, struct arrays, functions whose bytecode size sweeps across the 4096/8192 byte marks) "
+              "through both pipelines: bytecode generation succeeds, the verifier accepts, VM execution ends normally or in a documented fault, nanoc produces a binary that runs."),
+        note=TB + " Partial as designed (staged): the proved fragment is the while-language over the operator fragment. Known findings F-C04-7 (nested functions), F-C04-9 (discarded struct element access) and F-C04-10 (struct / nested array literals) do not compile natively and are reported on every run.",
+        technique="Lean 4 proof (type soundness of the while-language: progress and preservation by induction on evaluation fuel) + pipeline-outcome search on both back ends",
         design="6/C04"),
+
     "C05": dict(
         text=("Lean 4 theorems, one per rule of the property's catalogue, over the specification checker Tc (an executable transcription of the static rules), each in "
               "inversion form so that the contrapositive rejects EVERY violating program whatever the surrounding code: arith/compare/logic/plus/unary operand types, "
